@@ -28,6 +28,9 @@ CLAIMED = {
     "C06": ("exploration", "differential property testing: native verifier vs. in-circuit verifier (library assignment + witness generation + O-sat), over generated inner circuits and tampered / false / badly ground inner proofs",
             "For each generated inner circuit an outer recursive-verifier circuit (Poseidon or Keccak outer config) is built; honest inner proofs must be accepted, provable and re-expose the inner public inputs; inner proofs edited in every component class, a false statement emitted by the real prover, an overridden grinding witness and a wrong verifier digest must get the same verdict from the native verifier and from the outer circuit. On a sample of rejected cases the real outer prover is run and its proof must not verify.",
             "Circuit-side verdict = assignment and witness generation succeed and the satisfaction oracle (gate rows via eval_unfiltered, copy classes) is clean.", "§C06"),
+    "C19": ("exploration", "differential property testing across schedules (rayon pools of 1/2/5/16 threads x 3 repetitions, in-process) and across builds (scalar / AVX-512 / AVX2 / debug-assert, each with a different compile-time hash seed): records compared, proofs cross-verified",
+            "Seed-derived (circuit, STARK) cases are built and proved under different thread pools (identical verifier data, common data, public inputs, STARK transcripts required) and by every build variant; all variants' records must be identical and every variant verifies every other variant's PLONK and STARK proofs.",
+            "Interleavings are sampled, not enumerated; PLONK wire commitments are excluded from equality (the builder randomises unused public-input-gate wires on every proof), the grinding witness too.", "§C19"),
     "C20": ("exploration", "differential property testing of conditional verification (native validity of the selected pair vs. circuit verdict over all branch-state combinations), dummy circuits/proofs for generated shapes, model-checked cyclic chains with embedded-data edits",
             "Generated inner circuit + its library-made dummy circuit share common data; for generated (condition, state of branch 0, state of branch 1) combinations the outer conditional verifier must accept exactly when the selected pair is natively valid, irrespective of the other branch; dummy proofs verify; cyclic chains (length 1-2 quick, up to 4 thorough) verify at every step, carry the circuit's verifier data and the reference hash chain, and every edit of the embedded data is detected and cannot be extended.",
             "Poseidon config; non-zk, lookup-free inner shapes (documented preconditions of dummy_circuit).", "§C20"),
